@@ -360,6 +360,11 @@ func runMerge(cfg runCfg, pid string) error {
 			for _, i := range perm {
 				ss = append(ss, fed.Services[i].Schema)
 			}
+			var order []map[string]string
+			for _, i := range perm {
+				order = append(order, map[string]string{"service": fed.Services[i].Name, "sdl": fed.Services[i].SDL})
+			}
+			inflight(map[string]interface{}{"case": name, "call": "bramble.MergeSchemas on the services in this order", "conflict": conflict, "services": order})
 			m, merr := bramble.MergeSchemas(ss...)
 			sig := ""
 			if merr == nil {
